@@ -219,3 +219,52 @@ type addr string
 
 func (a addr) Network() string { return "mem" }
 func (a addr) String() string  { return string(a) }
+
+// RWConn adapts a reader and a writer to net.Conn (deadlines are ignored).
+type RWConn struct {
+	R io.Reader
+	W io.Writer
+}
+
+func (c RWConn) Read(p []byte) (int, error) {
+	if c.R == nil {
+		return 0, io.EOF
+	}
+	return c.R.Read(p)
+}
+func (c RWConn) Write(p []byte) (int, error) {
+	if c.W == nil {
+		return 0, io.ErrClosedPipe
+	}
+	return c.W.Write(p)
+}
+func (c RWConn) Close() error                       { return nil }
+func (c RWConn) LocalAddr() net.Addr                { return addr("rw-local") }
+func (c RWConn) RemoteAddr() net.Addr               { return addr("rw-remote") }
+func (c RWConn) SetDeadline(t time.Time) error      { return nil }
+func (c RWConn) SetReadDeadline(t time.Time) error  { return nil }
+func (c RWConn) SetWriteDeadline(t time.Time) error { return nil }
+
+// Compositions calls f with every composition of n into parts >= 1 (2^(n-1) of them).
+func Compositions(n int, f func(plan []int) bool) {
+	if n <= 0 {
+		f(nil)
+		return
+	}
+	for mask := 0; mask < 1<<uint(n-1); mask++ {
+		var plan []int
+		run := 1
+		for i := 0; i < n-1; i++ {
+			if mask>>uint(i)&1 == 1 {
+				plan = append(plan, run)
+				run = 1
+			} else {
+				run++
+			}
+		}
+		plan = append(plan, run)
+		if !f(plan) {
+			return
+		}
+	}
+}
